@@ -103,7 +103,7 @@ def small_values(s, defs):
     if defs[s].get("unk"):
         # holder types: messages that carry unknown fields (recorded while decoding, copied out at the end)
         for lbl, v in list(out):
-            v2 = {"f": v["f"], "unk": U.unknown_bytes([0, 1, 3])}
+            v2 = {"f": v["f"], "unk": U.unknown_bytes([0, 1, 3, 8, 9, 10])}
             out.append((lbl + "u", v2))
     return out
 
